@@ -114,7 +114,9 @@ package piece
 // hence verified (monitor invariant) -- while the read lock was held, taken at
 // the offset they occupy in the torrent.
 //@ func (*Pieces).ReadAt
-//@   requires ps != nil && GeomP(ps) && off >= 0
+//@   requires ps != nil
+//@   requires [geom] GeomP(ps)
+//@   requires [off]  off >= 0
 //@   modifies p[_]
 //@   ensures  [n]        0 <= $r0 && $r0 <= len(p)
 //@   ensures  [eof]      (off >= ps.length) == ($r1 != nil)
